@@ -14,7 +14,6 @@ package gen
 
 //@ iface Field.Write
 //@   requires metaOK(meta) && external(w)
-//@   verify[C13]
 //@   modifies meta, HA(meta.rowGroups), heap("sch.ColumnMetaData"), heap("map[string]sch.ColumnChunk"), wfault, relArr
 //@   ensures metaOK(meta) && meta.rowGroups == old(meta.rowGroups)
 //@   ensures[C09] err == nil ==> (wfault ==> old(wfault))
@@ -58,6 +57,7 @@ package gen
 //@   ensures[C09] res == nil ==> (wfault ==> old(wfault))
 
 //@ func (*ParquetWriter).Write
+//@   verify[C13]
 //@   requires writerOK(p)
 //@   modifies p, p.meta, HA(p.meta.rowGroups), heap("sch.ColumnMetaData"), heap("map[string]sch.ColumnChunk"), wfault, relArr
 //@   ensures[C09] err == nil ==> (wfault ==> old(wfault))
@@ -72,6 +72,7 @@ package gen
 //@   invariant freshsince(schema) && metaOK(p.meta) && (wfault ==> old(wfault)) && #schema == #p.fields
 
 //@ func (*ParquetWriter).Close
+//@   verify[C13]
 //@   requires writerOK(p)
 //@   modifies heap("sch.ColumnMetaData"), heap("sch.SchemaElement"), wfault
 //@   ensures[C09] err == nil ==> (wfault ==> old(wfault))
@@ -121,6 +122,7 @@ package gen
 //@   ensures[C12] res.stats != nil
 
 //@ func NewParquetWriter
+//@   verify[C13]
 //@   requires external(w)
 //@   requires forall k in 0..#opts: fnid(opts[k]) != fnidOf("GEN.withMeta$1")
 //@   modifies HA(opts), wfault
@@ -145,6 +147,7 @@ package gen
 //@   invariant freshsince(schema) && #schema == #ff
 
 //@ func (*ParquetWriter).Add
+//@   verify[C13]
 //@   modifies allheaps
 //@   ensures[C09] wfault == old(wfault)
 //@ loop (*ParquetWriter).Add#1
@@ -432,6 +435,7 @@ package gen
 //@   invariant m != nil && freshsince(m)
 
 //@ func NewParquetReader
+//@   verify[C13]
 //@   requires external(r)
 //@   modifies allheaps, srcPos, rfault, vPage, vDefs
 //@   ensures[C11] err == nil ==> srcSize >= 8 && srcMagic(srcSize - 4) && srcLE32(srcSize - 8) + 8 <= srcSize
@@ -451,12 +455,14 @@ package gen
 //@   invariant p.r == old(p.r) && (rfault ==> old(rfault))
 
 //@ func (*ParquetReader).Next
+//@   verify[C13]
 //@   requires readerOK(p)
 //@   modifies p, anyobj("GEN.Field"), heap("map[string][]parquet.Page"), heap("[]int64"), heap("[]string"), heap("[]bool"), heap("[]float32"), heap("[]float64"), heap("parquet.readCounter"), srcPos, rfault, vPage, vDefs
 //@   ensures p.r == old(p.r)
 //@   ensures[C10] rfault && !old(rfault) ==> !res && p.err != nil
 
 //@ func (*ParquetReader).Scan
+//@   verify[C13]
 //@   requires p != nil
 //@   modifies allexcept("GEN.ParquetReader")
 //@   ensures[C10] rfault == old(rfault)
